@@ -21,8 +21,8 @@ func c09Base(stage string, par, n int) *driver.Plan {
 
 func c09Gen(r *driver.Rand, thorough bool) *driver.Plan {
 	stage := driver.Pick(r, c09Stages...)
-	par := driver.Pick(r, 1, 2, 3, 4, 8)
-	n := r.Intn(3*par + 1)
+	par := driver.Pick(r, 1, 2, 3, 4, 8, 9, 16)
+	n := r.Intn(min(3*par, 24) + 1)
 	if thorough && r.Chance(1, 4) {
 		n = r.Intn(61)
 	}
